@@ -9,7 +9,7 @@ pub fn run(args: &[String]) -> ! {
     let mut ctx = Ctx::new("C37", Level::ModelChecking, args);
     let quick = ctx.quick();
     let cfg = Cfg { links: if quick { 1 } else { 2 }, max_sessions: if quick { 2 } else { 3 } };
-    let depth = ctx.opt_u64("depth").map(|d| d as u8).unwrap_or(if quick { 6 } else { 8 });
+    let depth = ctx.opt_u64("depth").map(|d| d as u8).unwrap_or(if quick { 5 } else { 8 });
     let mut w = Reset::new(cfg.clone());
 
     if let Some(r) = ctx.replay.clone() {
